@@ -10,3 +10,6 @@ open PubModel.C14
 #print axioms default_buffer_too_small
 #print axioms gen_peek_buffer_fits_record
 #print axioms helloInfo_exact_gen
+#print axioms hello_name_exact
+#print axioms PubModel.C14.Hello.sniff_build
+#print axioms PubModel.C14.Hello.build_shape
